@@ -161,6 +161,10 @@ class Exec:
         if cond is True:
             self.stats.discharged += 1; self.stats.trivial += 1; return True
         if cond is False:
+            if prefer is not None and self._check(prefer) == z3.sat:
+                self._record(kind, msg, extra); self.solver.pop()
+                raise PathEnd()
+            elif prefer is not None: self.solver.pop()
             self._check()
             self._record(kind, msg, extra)
             self.solver.pop()
@@ -668,6 +672,13 @@ class Exec:
         if re.match(r'(core::panicking::|std::rt::)?(panic|panic_fmt|panic_display|panic_str|unreachable_display|panic_explicit|begin_panic)(::<.*>)?$', callee) or \
                 re.match(r'(core::panicking::)?assert_failed(::<.*>)?$', callee) or callee.endswith('unwrap_failed') or callee.endswith('expect_failed'):
             return _panic_model(callee)
+        mi = re.fullmatch(r'<(.+) as Into<(.+)>>::into', callee)
+        if mi:
+            cands = prog.method_info('From', simple_name(mi.group(2)), 'from')
+            if len(cands) > 1:
+                q = [c for c in cands if simple_name(mi.group(1)) in (c[2] or '')]
+                if len(q) == 1: cands = q
+            if len(cands) == 1: return _mir_caller(cands[0][0])
         tm = _parse_callee(callee)
         if tm and tm[0] and simple_name(tm[0]) == 'Drop':
             return models.lookup(callee)
@@ -774,6 +785,14 @@ def _dynamic_dispatch(ex0, trait, method, callee, infos=None):
     def call(ex, args):
         recv = deref(args[0]) if args else None
         if isinstance(recv, BoxV) and isinstance(deref(recv.f[0]), Closure): recv = deref(recv.f[0])
+        if trait == 'IntoIterator' and method == 'into_iter':
+            from .models import SeqIter
+            a0 = args[0]
+            if isinstance(a0, VecV): return SeqIter(list(a0.items))
+            if isinstance(a0, Ref) and isinstance(a0.get(), VecV): return SeqIter([Ref(a0.get().items, i) for i in range(len(a0.get().items))])
+            if isinstance(a0, SliceV): return SeqIter([Ref(a0.vec.items, i) for i in range(a0.lo, a0.hi)])
+            tyx = getattr(recv, 'ty', None) or getattr(recv, 'rust_type', None)
+            if tyx and (tyx in ('SeqIter', 'Chars') or ex.prog.method_info('Iterator', simple_name(tyx), 'next')): return args[0]
         if trait in ('Fn', 'FnMut', 'FnOnce'):
             r2 = deref(recv.f[0]) if isinstance(recv, BoxV) else recv
             if isinstance(r2, (Closure, FnItem)) or callable(r2): return ex.call_value(r2, list(args[1].f))
@@ -829,6 +848,9 @@ def _same_tail(a, b):
 
 def _parse_callee(c):
     """-> (trait|None, type text, method, type text) for `<T as Tr>::m` and `Path::Type::m`."""
+    if not c.startswith('<'):
+        mm = re.search(r'::<impl ([A-Za-z_][\w:]*(?:<.*>)?)>::(\w+)(?:::<.*>)?$', c)
+        if mm: return (None, mm.group(1), mm.group(2), mm.group(1))
     if c.startswith('<'):
         close = _angle_close(c, 0)
         inner = c[1:close]
